@@ -1,8 +1,9 @@
 """C28 — viral attributes propagate according to the declared rule.
 Proof: Props/C28.v over Model/Viral.v.  Tie K (harness/viralgen.py): generated scripts with 1-2 viral attributes and their
 `define viral propagation` rules run on the real engine on TWO physical orders of the input datapoints and evaluated by
-`vrun` inside Coq (specification, and the engine's left fold on both orders); the predicate "same result whatever the
-order" is evaluated directly on the engine's output.  A malformed stream checks the semantic errors 1-3-3-6 / -4 / -1 / -5."""
+`vrun` inside Coq (the engine's sorted fold = the specification, and — as a regression witness — the physical-order fold the
+engine used before repo commit 52984f5, on both orders); the predicate "same result whatever the order" is evaluated directly on
+the engine's output.  A malformed stream checks the semantic errors 1-3-3-6 / -4 / -1 / -5."""
 from __future__ import annotations
 
 import collections
@@ -38,8 +39,8 @@ def evaluate(cases, pool, tag):
 
 
 def third_order(case, finding, pool, models):
-    """engine gave the same value on both orders but not the specification's: run it on the canonical order of the attribute —
-    under a physical-order fold it must then produce the specification, i.e. two orders with different results"""
+    """engine gave the same value on both orders but not the specification's (a regression to the physical-order fold?): run it on
+    the canonical order of the attribute — under a physical-order fold it then produces the specification, i.e. two orders differ"""
     attr = finding["attr"]
     cj = G.case_json(case)
     cj["extra_orders"] = {"e3": G.canonical_order(case, attr)}
@@ -253,6 +254,14 @@ def run(ctx):
                 ctx.oblige(f"tie: {origin} rejected with 1-3-3-6 by the engine and by vcheck", ok and not fs, str(eng["e1"].get("err")) + str([f["key"] for f in fs]))
             if origin.startswith("witness:"):
                 witness_seen[origin] = [f["key"] for f in fs]
+                # the witness of C28_fold_before_fix_order_dependent: the engine must equal the sorted fold on both orders and must
+                # NOT equal the physical-order fold on the reversed order (which the witness distinguishes from the specification)
+                types = dict(c["attrs"])
+                spec, _, old2 = [G.model_view(m, "VAt_1", types) for m in models["VAt_1"]]
+                e1, e2 = G.engine_view(eng["e1"], c, "VAt_1"), G.engine_view(eng["e2"], c, "VAt_1")
+                ctx.oblige(f"tie: {origin}: engine = sorted fold on both row orders, ≠ the fold before the fix on the reversed order",
+                           G.same_view(e1, spec) and G.same_view(e2, spec) and not G.same_view(old2, spec),
+                           f"engine {e1[3:]} / {e2[3:]}, specification {spec[3:]}, fold before the fix on order 2 {old2[3:]}")
             for f in fs:
                 report(ctx, c, f, pool, stats, origin)
         # the refuted theorem's witness replayed: either the engine shows the order dependence (finding) or it equals the specification
@@ -315,7 +324,7 @@ def run(ctx):
         for (c, f, models), s in zip(fold_cases, safe):
             if s is True:
                 f = dict(f, key="order-dependence-on-order-safe-rule",
-                         what="enum_order_safe holds for the rule (C28_enumerated_fold_partial applies) yet the engine's result differs from the specification: " + f["what"])
+                         what="enum_order_safe holds for the rule (even the fold before the fix is order-independent, C28_fold_before_fix_partial) yet the engine's result differs from the specification: " + f["what"])
             elif not f.get("direct"):
                 differs, spec_on_canon, order3 = third_order(c, f, pool, models)
                 n_third += 1
@@ -382,7 +391,7 @@ def replay(ctx, obj):
     types = dict(c["attrs"])
     for a, _ in c["attrs"]:
         print(f"-- attribute {a}")
-        print("expected (specification vrun false):", G.model_view(models[a][0], a, types))
+        print("expected (engine's sorted fold = specification, vrun false):", G.model_view(models[a][0], a, types))
         print("observed order 1:", G.engine_view(eng["e1"], c, a) if "e1" in eng else eng)
         print("observed order 2:", G.engine_view(eng["e2"], c, a) if "e2" in eng else eng)
     print("verdict:", "agree" if not fs else pprint.pformat([(f["key"], f["what"][:300]) for f in fs]))
